@@ -174,6 +174,31 @@ def run(ctx):
                         ctx.violation('negative-power', {**case, 'n': -4}, str(p42)[:300], str(p4)[:300], key='pow:neg')
             except ZeroDivisionError:
                 ctx.violation('division-zerodiv', {**case, 'ky': ky}, 'a quotient (x is invertible)', 'ZeroDivisionError', key='div:zerodiv')
+        # an empty numerator: 0 / x = 0 (and x / x = 1)
+        from kingdon import MultiVector as _MV
+        for kx in pats[:3]:
+            x = frac_mv(alg, kx, rng)
+            try:
+                xi = x.inv()
+            except Exception:
+                continue
+            empties = [('empty', _MV.fromkeysvalues(alg, (), [])), ('wedge-square', None), ('absent-grade', x.grade(d) if (2 ** d - 1) not in kx else _MV.fromkeysvalues(alg, (), []))]
+            if d >= 1:
+                e1 = alg.blades[alg.bin2canon[1]]
+                empties[1] = ('wedge-square', e1 ^ e1)
+            else:
+                empties.pop(1)
+            for nm, z in empties:
+                if z is None or len(z.keys()):
+                    continue
+                case = {**desc, 'kx': kx, 'numerator': nm}
+                ctx.case(case, tag='empty-numerator')
+                try:
+                    q = mv_to_dict(z / x)
+                    if q:
+                        ctx.violation('division', case, '0 (empty numerator)', str(q)[:200], key='div:empty-numerator')
+                except Exception as e:
+                    ctx.violation('division', case, '0 (empty numerator)', repr(e)[:200], key='div:empty-numerator:raises')
         # non-invertible operands must raise, never return a non-inverse
         for kx, vals in noninvertible(alg):
             from kingdon import MultiVector
@@ -202,6 +227,7 @@ def run(ctx):
                     continue
                 lines.append(f'hitzer {tok} {ks(kx)}')
                 plan.append(({**desc, 'kx': kx}, mv_to_dict(xi)))
+    wrapper_pass(ctx)
     out = ctx.drive(lines)
     if out is not None:
         nb = 0
@@ -225,6 +251,54 @@ def run(ctx):
         ctx.count('driver-mismatches', nb)
     ctx.assumptions = ['for d >= 6 the iterative (Shirokov) scheme divides in floating point: compared to 1e-7 relative, labelled as testing',
                        'ZeroDivisionError soundness is decided through the determinant of left multiplication for d <= 5 only']
+
+
+def wrapper_pass(ctx):
+    """inverse and division through the by-name route (wrapper) and inside registered functions, in a history that revisits
+    every key pattern after the others were generated; compared with a plain algebra"""
+    from kingdon import MultiVector
+    rng = ctx.rng
+
+    def f_inv(x): return x.inv()
+    def f_div(x, y): return x / y
+    for sig in ([1, 1, 1], [1, 1, -1], [0, 1, 1, 1], [1, 1]):
+        plain = make_algebra(sig)
+        wrapped = make_algebra(sig, wrapper=(lambda f: f))
+        d = len(sig)
+        N = 2 ** d
+        pats = [[0, 1, 6 % N], [0, 1, N - 1], [0, 3 % N, 5 % N], [0, 3 % N, N - 1], [1, 0, N - 1], [N - 1, 1, 0], [0, 1], [1, 2 % N], [2 % N, 1]]
+        pats = [list(dict.fromkeys(p)) for p in pats]
+        ops = [(p, [Fraction(rng.randint(1, 7)) for _ in p]) for p in pats]
+        seq = ops + list(reversed(ops)) + ops
+        regs = {}
+        for route in ('wrapper', 'registered', 'registered+wrapper'):
+            alg = wrapped if 'wrapper' in route else plain
+            if 'registered' in route:
+                regs[route] = (alg.register(f_inv), alg.register(f_div))
+        for i, (kx, vals) in enumerate(seq):
+            xp = MultiVector.fromkeysvalues(plain, tuple(kx), list(vals))
+            try:
+                exp = mv_to_dict(xp.inv())
+            except ZeroDivisionError:
+                continue
+            yk, yv = seq[(i + 3) % len(seq)]
+            for route in ('wrapper', 'registered', 'registered+wrapper'):
+                alg = wrapped if 'wrapper' in route else plain
+                x = MultiVector.fromkeysvalues(alg, tuple(kx), list(vals))
+                y = MultiVector.fromkeysvalues(alg, tuple(yk), list(yv))
+                case = {'sig': sig, 'route': route, 'kx': kx, 'call_index': i}
+                ctx.case(case, tag='route:' + route)
+                try:
+                    got = mv_to_dict(regs[route][0](x)) if 'registered' in route else mv_to_dict(x.inv())
+                    if got != exp:
+                        ctx.violation('inverse-route', case, str(exp)[:200], str(got)[:200], key=f'inv:route:{route}')
+                    q = mv_to_dict(regs[route][1](y, x)) if 'registered' in route else mv_to_dict(y / x)
+                    yp = MultiVector.fromkeysvalues(plain, tuple(yk), list(yv))
+                    qe = mv_to_dict(yp * xp.inv())
+                    if q != qe:
+                        ctx.violation('division-route', {**case, 'ky': yk}, str(qe)[:200], str(q)[:200], key=f'div:route:{route}')
+                except Exception as e:
+                    ctx.violation('inverse-route-raises', case, str(exp)[:200], repr(e)[:200], key=f'inv:route:{route}:raises')
 
 
 def MultiVector_tracer(alg, kx):
